@@ -2,22 +2,14 @@ package main
 
 import (
 	"bufio"
-	"bytes"
 	"context"
-	"crypto/ecdsa"
 	"crypto/ed25519"
-	"crypto/elliptic"
-	"crypto/rand"
 	"crypto/sha256"
 	"crypto/tls"
-	"crypto/x509"
-	"crypto/x509/pkix"
 	"encoding/json"
-	"encoding/pem"
 	"flag"
 	"fmt"
 	"io"
-	"math/big"
 	"net"
 	"net/http"
 	"os"
@@ -147,8 +139,9 @@ func bastionE2EMain(args []string) error {
 	out := fs.String("out", "", "trace")
 	dir := fs.String("dir", os.TempDir(), "scratch")
 	seed := fs.Int64("seed", 1, "seed")
+	prod := fs.String("prod", "", "production binary: the witness side is cmd/omniwitness (SQLite file) instead of the exported FeedBastion in a child of this driver")
 	_ = fs.Parse(args)
-	_, runs, ws, err := e2eWorlds(*in, *seed)
+	base, runs, ws, err := e2eWorlds(*in, *seed)
 	if err != nil {
 		return err
 	}
@@ -156,94 +149,54 @@ func bastionE2EMain(args []string) error {
 	if err != nil {
 		return err
 	}
-	// the stub bastion: TLS 1.3 listener with ALPN bastion/0; its certificate is the child's only trusted root
-	key, _ := ecdsa.GenerateKey(elliptic.P256(), rand.Reader)
-	tmpl := &x509.Certificate{SerialNumber: big.NewInt(1), Subject: pkix.Name{CommonName: "stub bastion"}, NotBefore: time.Now().Add(-time.Hour), NotAfter: time.Now().Add(24 * time.Hour),
-		KeyUsage: x509.KeyUsageDigitalSignature | x509.KeyUsageCertSign, ExtKeyUsage: []x509.ExtKeyUsage{x509.ExtKeyUsageServerAuth}, IsCA: true, BasicConstraintsValid: true,
-		DNSNames: []string{"localhost"}, IPAddresses: []net.IP{net.ParseIP("127.0.0.1")}}
-	der, err := x509.CreateCertificate(rand.Reader, tmpl, tmpl, &key.PublicKey, key)
+	// the stub bastion: TLS 1.3 listener with ALPN bastion/0; its certificate is the witness side's only trusted root
+	sb, err := newStubBastion(*dir, fmt.Sprintf("e2e-%d-%d", *seed, os.Getpid()))
 	if err != nil {
 		return err
 	}
-	caFile := filepath.Join(*dir, "stub-bastion-ca.pem")
-	if err := os.WriteFile(caFile, pem.EncodeToMemory(&pem.Block{Type: "CERTIFICATE", Bytes: der}), 0o644); err != nil {
-		return err
-	}
-	defer os.Remove(caFile)
-	ln, err := tls.Listen("tcp", "127.0.0.1:0", &tls.Config{Certificates: []tls.Certificate{{Certificate: [][]byte{der}, PrivateKey: key}},
-		MinVersion: tls.VersionTLS13, NextProtos: []string{"bastion/0"}, ClientAuth: tls.RequestClientCert})
-	if err != nil {
-		return err
-	}
-	defer ln.Close()
-	cmd := exec.Command(self, "bastion-e2e-child", "-in", *in, "-bastion", ln.Addr().String(), "-seed", fmt.Sprint(*seed))
-	cmd.Env = append(os.Environ(), "SSL_CERT_FILE="+caFile, "SSL_CERT_DIR=/nonexistent")
-	stdout, err := cmd.StdoutPipe()
-	if err != nil {
-		return err
-	}
-	if err := cmd.Start(); err != nil {
-		return err
-	}
-	defer func() { cmd.Process.Kill(); cmd.Wait() }()
+	defer sb.close()
 	api := ""
-	sc := bufio.NewScanner(stdout)
-	for sc.Scan() {
-		if strings.HasPrefix(sc.Text(), "API ") {
-			api = strings.TrimPrefix(sc.Text(), "API ")
-			break
+	alive := func() bool { return true }
+	if *prod != "" {
+		db := filepath.Join(*dir, fmt.Sprintf("bastion-e2e-prod-%d-%d.db", *seed, os.Getpid()))
+		defer func() { os.Remove(db); os.Remove(db + "-journal") }()
+		p, err := startProd(prodCfg{Bin: *prod, Dir: *dir, Tag: fmt.Sprintf("e2e-%d-%d", *seed, os.Getpid()), Yaml: prodYaml(ws), WitSKey: base.WitKey.SKey(), DB: db,
+			Bastion: sb.addr(), CAFile: sb.caFile, Rate: 100000})
+		if err != nil {
+			return err
 		}
-	}
-	if api == "" {
-		return fmt.Errorf("witness child did not report its API address")
-	}
-	type acc struct {
-		c   net.Conn
-		err error
-	}
-	// accept waits for the witness to dial in (it does so on a 5 s ticker, also after a connection was lost)
-	accept := func() (*tls.Conn, *http2.ClientConn, time.Duration, error) {
-		t0 := time.Now()
-		ch := make(chan acc, 1)
-		go func() { c, err := ln.Accept(); ch <- acc{c, err} }()
-		var conn net.Conn
-		select {
-		case a := <-ch:
-			if a.err != nil {
-				return nil, nil, 0, a.err
+		defer p.kill()
+		api = p.api
+		alive = p.alive
+	} else {
+		cmd := exec.Command(self, "bastion-e2e-child", "-in", *in, "-bastion", sb.addr(), "-seed", fmt.Sprint(*seed))
+		cmd.Env = append(os.Environ(), "SSL_CERT_FILE="+sb.caFile, "SSL_CERT_DIR=/nonexistent")
+		stdout, err := cmd.StdoutPipe()
+		if err != nil {
+			return err
+		}
+		if err := cmd.Start(); err != nil {
+			return err
+		}
+		defer func() { cmd.Process.Kill(); cmd.Wait() }()
+		sc := bufio.NewScanner(stdout)
+		for sc.Scan() {
+			if strings.HasPrefix(sc.Text(), "API ") {
+				api = strings.TrimPrefix(sc.Text(), "API ")
+				break
 			}
-			conn = a.c
-		case <-time.After(60 * time.Second):
-			return nil, nil, 0, fmt.Errorf("the witness did not connect to the stub bastion within 60 s")
 		}
-		tc := conn.(*tls.Conn)
-		if err := tc.Handshake(); err != nil {
-			return nil, nil, 0, fmt.Errorf("handshake: %v", err)
+		if api == "" {
+			return fmt.Errorf("witness child did not report its API address")
 		}
-		cs := tc.ConnectionState()
-		if cs.Version != tls.VersionTLS13 || cs.NegotiatedProtocol != "bastion/0" {
-			return nil, nil, 0, fmt.Errorf("unexpected connection: tls %x alpn %q", cs.Version, cs.NegotiatedProtocol)
-		}
-		cc, err := (&http2.Transport{}).NewClientConn(tc)
-		return tc, cc, time.Since(t0), err
 	}
+	accept := func() (*tls.Conn, *http2.ClientConn, time.Duration, error) { return sb.accept(60 * time.Second) }
 	tc, cc, connected, err := accept()
 	if err != nil {
 		return err
 	}
 	var reconnected time.Duration
-	post := func(body []byte) (int, string, []byte) {
-		req, _ := http.NewRequest(http.MethodPost, "https://bastion.invalid/add-checkpoint", bytes.NewReader(body))
-		ctx, cancel := context.WithTimeout(context.Background(), 30*time.Second)
-		defer cancel()
-		resp, err := cc.RoundTrip(req.WithContext(ctx))
-		if err != nil {
-			return -2, "", []byte(err.Error())
-		}
-		defer resp.Body.Close()
-		b, _ := io.ReadAll(resp.Body)
-		return resp.StatusCode, resp.Header.Get("Content-Type"), b
-	}
+	post := func(body []byte) (int, string, []byte) { return postVia(cc, body, 30*time.Second) }
 	tw, err := newTraceWriter(*out)
 	if err != nil {
 		return err
@@ -293,6 +246,9 @@ func bastionE2EMain(args []string) error {
 		return err
 	}
 	_ = tc
+	if !alive() {
+		return fmt.Errorf("the production binary exited while serving the runs")
+	}
 	fmt.Printf("BASTION-E2E runs=%d events=%d connected_after=%v reconnected_after=%v tls13=true alpn=bastion/0\n", len(runs), tw.n, connected.Round(time.Millisecond), reconnected.Round(time.Millisecond))
 	return nil
 }
